@@ -32,6 +32,7 @@ var commonAssumptions = []string{
 	"go/ssa (golang.org/x/tools v0.29.0) faithfully represents the Go source; the gosym executor's instruction semantics (validated per run by native replay of path witnesses)",
 	"z3 4.8.12 verdicts (unknown/error verdicts are reported as inconclusive, never as success)",
 	"Go map iteration order is explored according to the stated policy only",
+	"queries whose every arithmetic node is proven overflow-free by interval analysis (variable bounds mined from the path condition) are sent over mathematical integers; all others keep the 64-bit bit-vector encoding (engine/sym/intsafe.go)",
 }
 
 func init() {
@@ -77,5 +78,46 @@ func init() {
 		Outside:     []string{"more than 5 contributors", "negative contributions or contributions >= 2^56", "map iteration orders outside the policy", "entries of folded seats in Pot.Contributors (not constrained by the statement)"},
 		Assumptions: append([]string{"sort.Slice on <= 12 elements is the insertion sort of go1.19+ (modelled, calls the real less closure)"}, commonAssumptions...),
 		Explanation: "pot.LevelList.AddContributor/GetPots executed symbolically from go/ssa on symbolic contributions; the partition/nesting oracle is asserted on every path",
+	})
+
+	register(&PropSpec{
+		ID:   "C02",
+		Pkgs: []string{""},
+		Jobs: func(tier string) []sym.Job {
+			var js []sym.Job
+			add := func(n, folds, sorted int) {
+				js = append(js, sym.Job{Pkg: "", Harness: "Harness_C02_Settle", Args: []int{n, folds, sorted}})
+			}
+			pop := func(x int) int {
+				c := 0
+				for ; x > 0; x >>= 1 {
+					c += x & 1
+				}
+				return c
+			}
+			for n := 2; n <= 5; n++ {
+				for f := 0; f < (1<<uint(n))-1; f++ {
+					switch {
+					case n <= 3:
+						add(n, f, 0)
+					case n == 4 && (tier == "thorough" || pop(f) >= 1):
+						add(n, f, 0)
+					case n == 5 && (pop(f) >= 3 || tier == "thorough" && pop(f) >= 2):
+						add(n, f, 1)
+					}
+				}
+			}
+			return js
+		},
+		Covers: func(tier string) []string { return []string{"C02.settled", "C02.tie", "C02.side-pot"} },
+		Bounds: func(tier string) []string {
+			if tier == "thorough" {
+				return []string{"n<=4 seats: every fold pattern, every ordering of contributions and strengths incl. ties of every multiplicity", "n=5: contributions non-decreasing in seat index, >=2 folded seats", "contributions, wagers, stacks in [0,2^40), strengths in (0,2^40)", "map order: insertion"}
+			}
+			return []string{"n<=3 seats: every fold pattern; n=4: >=1 folded; n=5: contributions non-decreasing in seat index, >=3 folded", "every ordering of contributions and strengths incl. ties", "contributions, wagers, stacks in [0,2^40), strengths in (0,2^40)", "map order: insertion"}
+		},
+		Outside:     []string{"more than 5 seats; n=5 without the sortedness assumption; amounts >= 2^40", "settlement reached through real play (covered by the engine step harnesses feeding the same functions)", "PotResult.Winners[].Withdraw is not used as an observable (see DESIGN §4 C02)"},
+		Assumptions: append([]string{"non-folded strengths are positive (C03 asserts this of the evaluator)", "sort.Slice on <= 12 elements is the stdlib insertion sort (modelled)"}, commonAssumptions...),
+		Explanation: "game.updatePots + game.CalculateGameResults + pot + settlement packages executed symbolically on symbolic contributions/strengths; the layer oracle is written from the rules and asserted through Result.Players[].Changed",
 	})
 }
